@@ -27,7 +27,6 @@ import re
 import shutil
 import subprocess
 import sys
-import traceback
 import warnings
 
 import numpy as np
@@ -35,7 +34,7 @@ import pandas as pd
 from pipefunc import cache as pc
 
 from .. import boot, findings
-from ..acc import Acc
+from ..acc import MAX_EXAMPLES, Acc, sig_key
 
 ID = "C15"
 LEVEL = "exploration"
@@ -374,7 +373,7 @@ def _level1():
 
 _1, _a, _0, _N, _e = lf("1"), lf("'a'"), lf("0"), lf("None"), lf("''")
 
-# representative depth<=1 children for depth-2 containers
+# look-alike representatives of depth <= 1: the memoize list is built from them (and they are part of every wrap pool)
 P1 = [
     _1, _a, _N,
     T(), T(_1), T(_a), T(_1, _a), T(_a, _1), T(_0, _1),
@@ -1295,6 +1294,7 @@ def run_unit(unit):  # noqa: C901, PLR0912, PLR0915
         idx = [tab.idx(v) for v in vals]
         folder = boot.mkscratch("c15-disk-")
         cache = make_cache(cfg, folder)
+        confirmed = collections.Counter()
         try:
             for i in idx[c::n]:
                 for j in idx:
@@ -1325,7 +1325,10 @@ def run_unit(unit):  # noqa: C901, PLR0912, PLR0915
                             cache = make_cache(cfg, folder)
                         res = check_memo(tab, i, j, cfg, call, cache=cache, notes=notes)
                         case = {"op": "memo", "cache": cfg, "call": call, "a": tab.descs[i], "b": tab.descs[j]}
-                        if res:  # confirm on a fresh cache object (what replay does)
+                        if res and confirmed[sig_key(res[0][0])] < MAX_EXAMPLES:
+                            # the examples kept per signature (what the runner replays) are confirmed on a fresh cache
+                            # object, as replay does; later instances of the same signature are taken from the reused one
+                            confirmed[sig_key(res[0][0])] += 1
                             res = check_memo(tab, i, j, cfg, call)
                             if not res:
                                 acc.notes[f"memoize anomaly seen only on a cleared, reused cache object: cache={cfg}"] += 1
